@@ -515,8 +515,18 @@ type mgrListener struct {
 	order   []string
 }
 
-func (l *mgrListener) Healthy() { l.mu.Lock(); l.healthy++; l.order = append(l.order, "Healthy"); l.mu.Unlock() }
-func (l *mgrListener) Stopped() { l.mu.Lock(); l.stopped++; l.order = append(l.order, "Stopped"); l.mu.Unlock() }
+func (l *mgrListener) Healthy() {
+	l.mu.Lock()
+	l.healthy++
+	l.order = append(l.order, "Healthy")
+	l.mu.Unlock()
+}
+func (l *mgrListener) Stopped() {
+	l.mu.Lock()
+	l.stopped++
+	l.order = append(l.order, "Stopped")
+	l.mu.Unlock()
+}
 func (l *mgrListener) Failure(s services.Service) {
 	l.mu.Lock()
 	l.failed[services.DescribeService(s)]++
@@ -1012,11 +1022,58 @@ func TestC17(t *testing.T) {
 
 func TestC17Race(t *testing.T) {
 	run := vt.NewRun("C17", "exploration")
-	run.SetRule("concurrent mode under the race detector: actions on the services of a manager fired from one goroutine per service without global waiting; at quiescence the same model comparison as in step mode.")
+	run.SetRule("concurrent mode under the race detector: actions on the services of a manager fired from one goroutine per service without global waiting; at quiescence the same model comparison as in step mode. Generator start-stop-race: StartAsync and StopAsync of fresh idle services released at the same moment from two goroutines; a returned stop request is never lost.")
 	run.ForEachT(t, "concurrent", vt.N(3000, 60000), func(t *testing.T, c vt.CaseID, rng *rand.Rand, s *vt.Slot) {
 		s.Enter(c, "crash/concurrent")
 		runManager(t, run, c, rng, true)
 		s.Leave()
+	})
+	// StartAsync and StopAsync of one fresh service issued at the same moment from two goroutines (each case races
+	// a batch of services): whichever wins, a stop request that has returned is never lost - either the service never
+	// started (Terminated from New, StartAsync refused) or it started and, with nothing left to wait for, is Terminated
+	// with its context cancelled once the bubble is quiescent.
+	run.ForEachT(t, "start-stop-race", vt.N(400, 8000), func(t *testing.T, c vt.CaseID, rng *rand.Rand, s *vt.Slot) {
+		s.Enter(c, "crash/start-stop-race")
+		defer s.Leave()
+		synctest.Test(t, func(t *testing.T) {
+			const batch = 40
+			type one struct {
+				svc      *services.BasicService
+				startErr error
+			}
+			items := make([]*one, batch)
+			for i := range items {
+				items[i] = &one{svc: services.NewIdleService(nil, nil)}
+			}
+			gate := make(chan struct{})
+			var wg sync.WaitGroup
+			for _, it := range items {
+				it := it
+				wg.Add(2)
+				go func() { defer wg.Done(); <-gate; it.startErr = it.svc.StartAsync(context.Background()) }()
+				go func() { defer wg.Done(); <-gate; it.svc.StopAsync() }()
+			}
+			close(gate)
+			wg.Wait()
+			synctest.Wait()
+			for i, it := range items {
+				st := it.svc.State()
+				run.EvalH(vt.Mix(uint64(c.Idx), uint64(i), 55), true)
+				switch {
+				case it.startErr != nil && st != services.Terminated:
+					run.Violation(c, "service/start-refused-but-not-terminated", fmt.Sprintf("StartAsync failed (%v) against a concurrent StopAsync, but the service is %v", it.startErr, st), nil)
+				case it.startErr == nil && st != services.Terminated:
+					run.Violation(c, "service/stop-request-lost", fmt.Sprintf("StartAsync succeeded, the concurrent StopAsync has returned, everything is quiescent, but the service is %v (context error: %v)", st, it.svc.ServiceContext().Err()), nil)
+				case it.startErr == nil && it.svc.ServiceContext() != nil && it.svc.ServiceContext().Err() == nil:
+					run.Violation(c, "service/stop-request-lost", "the service was started and stopped but its context is still live", nil)
+				}
+				if it.startErr == nil {
+					run.Count("races_won_by_start", 1)
+				} else {
+					run.Count("races_won_by_stop", 1)
+				}
+			}
+		})
 	})
 	run.Finish(t)
 }
